@@ -199,6 +199,8 @@ class _Hist:
         self.worlds = {}
         self.cur = "A"
         self.entries = []
+        self.keep = []          # Round 5 (R5-B): every array the API handed out since the last scribble
+        self.cfg_saved = {}     # Round 5 (R5-D): config values changed by `cfg` steps (restored by `run`)
         if impl:
             self.aa = load_autoarray()
         self._new_world("A", case_mask(case), case.get("scales", ["1", "1"]), case.get("origin", ["0", "0"]))
@@ -208,8 +210,10 @@ class _Hist:
         w = {"sh": sh, "sc": list(sc), "og": list(og), "target": name}
         if self.impl:
             if obj is None:
-                obj = self.aa.Mask2D(mask=np.array(sh, dtype=bool), pixel_scales=tuple(float(Fraction(v)) for v in sc),
+                src = np.array(sh, dtype=bool)
+                obj = self.aa.Mask2D(mask=src, pixel_scales=tuple(float(Fraction(v)) for v in sc),
                                      origin=tuple(float(Fraction(v)) for v in og))
+                w["src"] = src      # the caller's array the constructor accepted (scribbled over by `scribble`)
             w["obj"] = obj
             w["held"] = [obj.derive_indexes, obj.derive_mask, obj.derive_grid]
             w["arr"] = np.array(sh, dtype=bool) if arr is None else arr
@@ -230,9 +234,92 @@ class _Hist:
             fn(st)
 
     def run(self):
-        for st in self.case.get("steps", []):
-            self.apply(st)
+        try:
+            for st in self.case.get("steps", []):
+                self.apply(st)
+        finally:
+            self.keep = []
+            self._cfg_restore()
         return self.entries
+
+    # -- Round 5 (R5-B): ownership of returned / accepted arrays
+    def _stash(self, x):
+        if self.impl and x is not None:
+            self.keep.append(x)
+        return x
+
+    def _op_scribble(self, st):
+        """write in place over every array the API returned since the last scribble and over the arrays it
+        accepted (constructor input, copied util inputs, the kernel-shape list).  The caller owns all of them, so
+        nothing a later call returns may change; the shadow state is untouched."""
+        if not self.impl:
+            return
+        mode = int(st.get("mode", 0))
+        for x in self.keep:
+            a = getattr(x, "_array", x)
+            if not isinstance(a, np.ndarray) or a.size == 0:
+                continue
+            try:
+                if a.dtype == bool:
+                    if mode == 0:
+                        np.logical_not(a, out=a)
+                    else:
+                        a[...] = bool(mode % 2)
+                elif a.dtype.kind in "iu":
+                    if mode == 0:
+                        a += 1
+                    else:
+                        a[...] = -1 if a.dtype.kind == "i" else 0
+                elif a.dtype.kind == "f":
+                    if mode == 0:
+                        a[...] = np.nan
+                    else:
+                        a += 1.0
+            except Exception:
+                pass
+        self.keep = []
+        for w in self.worlds.values():
+            src = w.get("src")
+            if isinstance(src, np.ndarray) and src.size:
+                try:
+                    np.logical_not(src, out=src)
+                except Exception:
+                    pass
+            if "klist" in w:
+                w["klist"][:] = [9, 9]
+
+    # -- Round 5 (R5-D): configuration values flipped between calls (C10's code reads none: nothing may change)
+    CFG_KEYS = {"flip_for_ds9": ("fits", "flip_for_ds9"), "remove_projected_centre": ("grid", "remove_projected_centre"),
+                "native_binned_only": ("structures", "native_binned_only")}
+
+    def _op_cfg(self, st):
+        if not self.impl:
+            return
+        from autoconf import conf
+
+        g = conf.instance["general"]
+        for name, v in st.get("vals", {}).items():
+            if name not in self.CFG_KEYS:
+                continue
+            sec, key = self.CFG_KEYS[name]
+            try:
+                self.cfg_saved.setdefault(name, g[sec][key])
+                g[sec][key] = bool(v)
+            except Exception:
+                pass
+
+    def _cfg_restore(self):
+        if not self.cfg_saved:
+            return
+        try:
+            from autoconf import conf
+
+            g = conf.instance["general"]
+            for name, v in self.cfg_saved.items():
+                sec, key = self.CFG_KEYS[name]
+                g[sec][key] = v
+        finally:
+            self.cfg_saved = {}
 
     @staticmethod
     def _key(st):
@@ -387,14 +474,14 @@ class _Hist:
         else:
             di, dm, dg = obj.derive_indexes, obj.derive_mask, obj.derive_grid
         if key in ("edge_slim", "border_slim"):
-            return {key: [int(v) for v in getattr(di, key)]}
+            return {key: [int(v) for v in self._stash(getattr(di, key))]}
         if key in ("edge_native", "border_native"):
-            return {key: [[int(a), int(b)] for a, b in np.asarray(getattr(di, key)).reshape(-1, 2)]}
+            return {key: [[int(a), int(b)] for a, b in np.asarray(self._stash(getattr(di, key))).reshape(-1, 2)]}
         if key in ("edge_mask", "border_mask"):
-            return {key: _bits(getattr(dm, key[:-5]))}
+            return {key: _bits(self._stash(getattr(dm, key[:-5])))}
         if key in ("edge_grid", "border_grid"):
-            g = getattr(dg, key[:-5])
-            return {key: _grid(g), key + "_mask": _bits(g.mask)}
+            g = self._stash(getattr(dg, key[:-5]))
+            return {key: _grid(g), key + "_mask": _bits(self._stash(g.mask))}
         if key in MASK_DECOYS:
             getattr(obj, key)
         elif key in DI_DECOYS:
@@ -428,9 +515,11 @@ class _Hist:
                 from autoarray.mask import mask_2d_util
 
                 a = w["arr"]
+                if st.get("copyin"):        # R5-B: a throw-away equal copy is handed in and scribbled over later
+                    a = self._stash(np.array(a, dtype=bool))
                 order = st.get("order", SET_KEYS)
-                fns = [("edge_slim", lambda: [int(v) for v in mask_2d_util.edge_1d_indexes_from(mask_2d=a)]),
-                       ("border_slim", lambda: [int(v) for v in mask_2d_util.border_slim_indexes_from(mask_2d=a)]),
+                fns = [("edge_slim", lambda: [int(v) for v in self._stash(mask_2d_util.edge_1d_indexes_from(mask_2d=a))]),
+                       ("border_slim", lambda: [int(v) for v in self._stash(mask_2d_util.border_slim_indexes_from(mask_2d=a))]),
                        ("total_edge", lambda: int(mask_2d_util.total_edge_pixels_from(mask_2d=a)))]
                 if order and order[0] in ("border_slim", "border_native", "border_mask", "border_grid"):
                     fns = [fns[1], fns[2], fns[0]]
@@ -472,20 +561,23 @@ class _Hist:
             ks = (kh, kw)
         try:
             if via == "util":
-                bm = mask_2d_util.blurring_mask_2d_from(mask_2d=w["arr"], kernel_shape_native=ks)
+                a = w["arr"]
+                if st.get("copyin"):
+                    a = self._stash(np.array(a, dtype=bool))
+                bm = self._stash(mask_2d_util.blurring_mask_2d_from(mask_2d=a, kernel_shape_native=ks))
                 obs = {"blurring_mask": _bits(bm)}
             else:
                 obj = tgt["obj"]
                 dm = w["held"][1] if held else None
                 grid = None
                 if want_grid and via == "grid_first":
-                    grid = _grid(self.aa.Grid2D.blurring_grid_from(mask=obj, kernel_shape_native=ks))
-                bm = (dm if dm is not None else obj.derive_mask).blurring_from(kernel_shape_native=ks)
+                    grid = _grid(self._stash(self.aa.Grid2D.blurring_grid_from(mask=obj, kernel_shape_native=ks)))
+                bm = self._stash((dm if dm is not None else obj.derive_mask).blurring_from(kernel_shape_native=ks))
                 obs = {"blurring_mask": _bits(bm),
                        "geometry_kept": [q(v) for v in (*bm.pixel_scales, *bm.origin)] == [*tgt["sc"], *tgt["og"]]}
                 if want_grid:
                     if grid is None:
-                        grid = _grid(self.aa.Grid2D.blurring_grid_from(mask=obj, kernel_shape_native=ks))
+                        grid = _grid(self._stash(self.aa.Grid2D.blurring_grid_from(mask=obj, kernel_shape_native=ks)))
                     obs["blurring_grid"] = grid
         except exc.MaskException as e:
             obs = {"err": _err_kind(e)}
@@ -561,6 +653,10 @@ class C10(PropertyCheck):
 
     # ------------------------------------------------------------------ generation
     MASK_FORMS = ["bool_nd", "bool_nd", "bool_list", "int_list", "int_nd", "invert"]
+    # Round 5 (R5-C): other memory layouts / dtypes of an equal ndarray, and the forms legal together with invert=True
+    ND_FORMS = ["fortran", "tview", "strided", "negstride", "readonly", "uint8", "int8", "int32", "float64", "float32"]
+    BOOL_FORMS = {"bool_nd", "bool_list", "int_list", "fortran", "tview", "strided", "negstride", "readonly",
+                  "np_bool_list", "row_arrays", "from_mask2d", "from_mask2d_same"}   # legal together with invert=True
 
     def _forms(self, rng):
         """how the (same) inputs are handed to the public API: container / dtype / constructor variants"""
@@ -646,6 +742,289 @@ class C10(PropertyCheck):
         #    model / oracle value of a freshly built object in that state
         for c in self.history_cases(rng, 100 if quick else 700):
             yield c
+        # 7. Round 5/6 hardening (DESIGN §14): decades / layouts / options / ownership + configuration histories /
+        #    always-on mid-size frames
+        for c in self.decade_cases(rng, 26 if quick else 300):
+            yield c
+        for c in self.layout_cases(rng, 10 if quick else 120):
+            yield c
+        for c in self.option_cases(rng, 1 if quick else 6):
+            yield c
+        for c in self.history_cases(rng, 24 if quick else 400, self.HISTORY_TEMPLATES_R5):
+            yield c
+        for c in self.mid_cases(rng, quick):
+            yield c
+
+    # ------------------------------------------------------------------ Round 5: decades stream (R5-A, R5-E)
+    NEAR = (20, 22, 24, 26, 27)      # relative differences 2^-m: far outside 1e-9, inside allclose/isclose defaults
+
+    def _decade_geoms(self, rng):
+        """(tag, scales, origin) variants of one ordinary geometry: the whole world or one ingredient scaled by
+        2^k (powers of two keep every dyadic exact), nearly-equal / nearly-zero ingredients at several decades,
+        origins far from zero.  All values are exact doubles (<= 53 significant bits, exponents within +-520)."""
+        P = lambda k: Fraction(2) ** k
+        sy, sx = rng.choice(POW2_SCALES), rng.choice(POW2_SCALES)
+        ay, ax = rng.choice(ALL_SCALES), rng.choice(ALL_SCALES)
+        oy, ox = gen.dyadic(rng, -4, 4, 2), gen.dyadic(rng, -4, 4, 2)
+        ks = [rng.randint(-45, -25), rng.randint(-24, -8), rng.randint(8, 24), rng.randint(25, 45)]
+        for k in ks:
+            yield "decade_world", (sy * P(k), sx * P(k)), (oy * P(k), ox * P(k))
+        k = rng.choice(ks)
+        yield "decade_world_general", (ay * P(k), ax * P(k)), (oy * P(k), ox * P(k))
+        # R5-E: out to ~1e+-150 (2^+-500): quotients origin/scale stay ordinary, nothing is squared
+        for k in (rng.choice([-1, 1]) * rng.randint(46, 200), rng.choice([-1, 1]) * rng.randint(201, 500)):
+            yield "extreme_world", (sy * P(k), sx * P(k)), (oy * P(k), ox * P(k))
+        # one ingredient: the origin far from zero (10^3 .. 10^12 pixels away), the scales alone, one axis alone
+        k = rng.randint(10, 40)
+        j = rng.choice([0, 0, rng.randint(-30, 30)])
+        far = [oy * P(k), ox * P(k)]
+        if rng.random() < 0.4:
+            far[rng.randrange(2)] = rng.choice([oy, Fraction(0)])
+        if far[0] == 0 and far[1] == 0:
+            far[0] = P(k)
+        yield "decade_origin_far", (sy * P(j), sx * P(j)), (far[0] * P(j), far[1] * P(j))
+        k = rng.choice([rng.randint(-30, -6), rng.randint(6, 40)])
+        yield "decade_scales_only", (sy * P(k), sx * P(k)), (oy, ox)
+        k = rng.choice([rng.randint(-40, -12), rng.randint(12, 40)])
+        yield "decade_one_axis", ((sy * P(k), sx) if rng.random() < 0.5 else (sy, sx * P(k))), (Fraction(0), Fraction(0))
+        # nearly-equal scales (isotropic up to 2^-m), nearly-zero origin, nearly-equal origin components
+        for k in (0, rng.choice(ks)):
+            m_ = rng.choice(self.NEAR)
+            e = 1 + rng.choice([-1, 1]) * P(-m_)
+            yield "decade_near_equal_scales", (sy * P(k), sy * P(k) * e), (oy * P(k), ox * P(k))
+            m_ = rng.choice(self.NEAR)
+            tiny = [rng.choice([-1, 1]) * sy * P(k - m_), rng.choice([-1, 1]) * sx * P(k - m_)]
+            if rng.random() < 0.5:
+                tiny[rng.randrange(2)] = Fraction(0)
+            yield "decade_near_zero_origin", (sy * P(k), sx * P(k)), tuple(tiny)
+        m_ = rng.choice(self.NEAR)
+        o = (oy if oy != 0 else Fraction(1, 4)) * P(rng.choice([0, rng.randint(8, 30)]))
+        yield "decade_near_equal_origin", (sy, sx), (o, o * (1 + P(-m_)))
+        # the origin a whole / half number of pixels away, far out (the centre pixel coordinate becomes integral)
+        n = rng.randint(1 << 10, 1 << 30)
+        yield "decade_origin_pixel_multiple", (sy, sx), (sy * n, sx * (Fraction(n) + Fraction(1, 2)))
+
+    def decade_cases(self, rng, n_masks):
+        for _ in range(n_masks):
+            kh, kw = rng.choice([(3, 3), (3, 3), (1, 3), (3, 5), (5, 3), (1, 1)])
+            h, w = rng.randint(max(3, kh), 7), rng.randint(max(3, kw), 7)
+            r = rng.random()
+            if r < 0.08:
+                h, kh = 1, 1
+            elif r < 0.16:
+                w, kw = 1, 1
+            if rng.random() < 0.5:
+                m = self._mask_with_margins(rng, h, w, kh // 2, kw // 2)
+                can_blur = True
+            else:
+                m, _ = gen.random_mask(rng, h, w)
+                can_blur = False
+            mj = mask_json(m)
+            # the SAME mask with every geometry in a row: neighbours with the same key and another world
+            for tag, sc, og in self._decade_geoms(rng):
+                sc, og = [q(v) for v in sc], [q(v) for v in og]
+                forms = {"scales_form": rng.choice(["tuple", "tuple", "list", "np64"]),
+                         "origin_form": rng.choice(["tuple", "tuple", "list", "np64"])}
+                yield {"tag": tag, "kind": "sets", "dec": 1, "mask": mj, "scales": sc, "origin": og, **forms}
+                if can_blur and rng.random() < 0.5:
+                    yield {"tag": tag, "kind": "blurring", "dec": 1, "mask": mj, "kh": kh, "kw": kw, "grid": True,
+                           "scales": sc, "origin": og, **forms,
+                           "grid_via": rng.choice([None, None, "positional", "via_grid", "os_1"])}
+
+    # ------------------------------------------------------------------ Round 5: container / layout variants (R5-C)
+    SET_MASK_FORMS = ["bool_nd", "bool_list", "int_list", "int_nd", "np_bool_list", "row_arrays", "from_mask2d",
+                      "from_mask2d_same"] + ND_FORMS
+    KSHAPE_FORMS = ["tuple", "list", "np_int", "np_i32", "np_i8", "np_arr", "np_arr_i16"]
+    GRID_VIAS = [None, "positional", "os_none", "os_1", "os_2", "via_grid"]
+
+    def layout_cases(self, rng, n_masks):
+        """the same mask through every container / memory layout / dtype the entry points accept"""
+        for i in range(n_masks):
+            h, w = rng.randint(2, 8), rng.randint(2, 8)
+            if i % 7 == 5:
+                h = 1
+            elif i % 7 == 6:
+                w = 1
+            kh, kw = rng.choice([(3, 3), (1, 3), (3, 1), (3, 5)])
+            if rng.random() < 0.6 and h >= kh and w >= kw:
+                m = self._mask_with_margins(rng, h, w, kh // 2, kw // 2)
+            else:
+                m, _ = gen.random_mask(rng, h, w)
+            mj = mask_json(m)
+            sc, og = self._geom(rng, exact=True)
+            for f in self.SET_MASK_FORMS:
+                for inv in ((None, "true") if f in self.BOOL_FORMS else (None,)):
+                    yield {"tag": f"layout_sets_{f}" + ("_inv" if inv else ""), "kind": "sets", "mask": mj, "scales": sc,
+                           "origin": og, "mask_form": f, "invert_form": inv,
+                           "scales_form": rng.choice(["tuple", "list", "np64", "f32", "scalar"]),
+                           "origin_form": rng.choice(["tuple", "list", "np64", "int"])}
+            for f in ["bool_nd", "int_nd"] + self.ND_FORMS:
+                yield {"tag": f"layout_util_{f}", "kind": "util", "mask": mj, "mask_form": f}
+            for kf in self.KSHAPE_FORMS:
+                f = rng.choice(self.SET_MASK_FORMS)
+                yield {"tag": f"layout_blur_{kf}", "kind": "blurring", "mask": mj, "kh": kh, "kw": kw, "grid": True,
+                       "scales": sc, "origin": og, "mask_form": f, "kshape_form": kf,
+                       "invert_form": rng.choice([None, "true", "false"]) if f in self.BOOL_FORMS else None,
+                       "grid_via": rng.choice(self.GRID_VIAS)}
+
+    # ------------------------------------------------------------------ Round 5: rarely combined options (R5-F)
+    def _option_axes(self):
+        """option axes of the entry points the property names, read off their signatures (`inspect.signature`):
+        {axis: [default, non-default values…]}.  An axis whose parameter disappeared is dropped; set-but-falsy
+        values (origin exactly (0,0) given explicitly / as ints, invert=False / 0, over_sampling=None) are values
+        like any other."""
+        import inspect
+
+        aa = load_autoarray()
+        axes = {}
+        try:
+            pm = inspect.signature(aa.Mask2D.__init__).parameters
+        except Exception:
+            pm = {}
+        try:
+            pg = inspect.signature(aa.Grid2D.blurring_grid_from).parameters
+        except Exception:
+            pg = {}
+        if "mask" in pm:
+            axes["mask_form"] = list(self.SET_MASK_FORMS)
+        if "pixel_scales" in pm:
+            axes["scales_form"] = ["tuple", "scalar", "int", "list", "np64", "f32"]
+        if "origin" in pm:
+            axes["origin_form"] = ["tuple", "omit", "zero_explicit", "int", "list", "np64"]
+        if "invert" in pm:
+            axes["invert_form"] = [None, "false", "zero", "true"]
+        axes["kshape_form"] = list(self.KSHAPE_FORMS)
+        vias = [None, "positional", "via_grid"]
+        if "over_sampling" in pg:
+            vias += ["os_none", "os_1", "os_2"]
+        axes["grid_via"] = vias
+        axes["kernel"] = [(3, 3), (1, 1), (1, 3), (3, 1), (5, 1), (1, 5), (3, 5)]
+        return axes
+
+    def option_cases(self, rng, reps):
+        """pairwise crossing: every non-default value of one option with every non-default value of another; the
+        remaining options at their default (mostly) or random"""
+        axes = self._option_axes()
+        names = sorted(axes)
+        for _ in range(reps):
+            for i, a in enumerate(names):
+                for b in names[i + 1:]:
+                    for va in axes[a][1:]:
+                        for vb in axes[b][1:]:
+                            opt = {n: (axes[n][0] if rng.random() < 0.7 else rng.choice(axes[n])) for n in names}
+                            opt[a], opt[b] = va, vb
+                            yield self._option_case(rng, opt)
+
+    def _option_case(self, rng, opt):
+        kh, kw = opt.pop("kernel")
+        blur = rng.random() < 0.6
+        h, w = rng.randint(max(2, kh), 6), rng.randint(max(2, kw), 6)
+        zero_origin = opt.get("origin_form") in ("omit", "zero_explicit") or (opt.get("origin_form") == "int" and rng.random() < 0.5)
+        r = rng.random()
+        if r < 0.08:
+            m = gen.full(h, w, rng.random() < 0.5)         # uniform masks: the all_false constructor applies
+            if opt.get("mask_form") == "bool_nd" or rng.random() < 0.5:
+                opt["mask_form"] = "all_false"
+        elif blur:
+            m = self._mask_with_margins(rng, h, w, kh // 2, kw // 2)
+        else:
+            m, _ = gen.random_mask(rng, h, w)
+        sc, og = self._geom(rng, exact=True)
+        if opt.get("scales_form") == "scalar":
+            sc = [sc[0], sc[0]]
+        if opt.get("scales_form") == "int":
+            sc = [q(rng.choice([1, 2])), q(rng.choice([1, 2]))]
+        if zero_origin:
+            og = ["0", "0"]
+        elif opt.get("origin_form") == "int":
+            og = [q(rng.randint(-3, 3)), q(rng.randint(-3, 3))]
+        case = {"tag": "options_pair", "mask": mask_json(m), "scales": sc, "origin": og,
+                **{k: v for k, v in opt.items() if v is not None and k not in ("kshape_form", "grid_via")}}
+        if blur:
+            case.update(kind="blurring", kh=kh, kw=kw, grid=True, kshape_form=opt["kshape_form"])
+            if opt.get("grid_via"):
+                case["grid_via"] = opt["grid_via"]
+        else:
+            case["kind"] = "sets"
+        return case
+
+    # ------------------------------------------------------------------ Round 5: always-on mid / large sizes (R5-E)
+    def mid_cases(self, rng, quick):
+        """one or two frames per run beyond 2^15 / 2^16 in every size the C10 code loops over (frame pixels, one
+        side, unmasked pixels), judged by the vectorised oracle alone (no new constant is needed to trigger them)"""
+        def case(kind, dim, spec, **kw):
+            sc, og = self._geom(rng)
+            c = {"tag": f"mid_{dim}_{kind}", "kind": kind, "large": 1, "spec": spec, "scales": sc, "origin": og, **kw}
+            if kind == "blurring":
+                c.setdefault("grid", True)
+            return c
+
+        seed = rng.randrange(1 << 30)
+        # frame pixels > 2^16: footprints that fit exactly on the far sides / leave by exactly one column
+        H, W = rng.randint(250, 262), rng.randint(263, 275)
+        kh, kw = rng.choice([(3, 5), (5, 3), (3, 3)])
+        hy, hx = kh // 2, kw // 2
+        base = [["rect", H // 5, H // 2, W // 6, W // 2, 0], ["px", H // 3, W // 3, 1], ["diag", H // 2, W // 2, 6, 1],
+                ["bern", seed, 1, 3, H - hy - 1 - H // 6, H - hy - 1, hx + 1, W // 3],
+                ["px", H - 1 - hy, W // 3, 0], ["px", H // 3, W - 1 - hx, 0], ["px", hy, W // 2, 0], ["px", H // 2, hx, 0]]
+        yield case("blurring", "frame", {"H": H, "W": W, "ops": base}, kh=kh, kw=kw, note="fits_every_side")
+        side = rng.choice([["px", H // 3, W - hx, 0], ["px", H - hy, W // 3, 0]])
+        yield case("blurring", "frame", {"H": H, "W": W, "ops": base + [side]}, kh=kh, kw=kw, note="leaves_by_one")
+        # one side > 2^16 (thin frames, both orientations)
+        L = (1 << 16) + rng.randint(1, 40)
+        for (H, W) in ((L, 3), (3, L)):
+            if H > W:
+                ops = [["stripes", 1, H - 1, 1, 2, 3], ["rect", H - 9, H - 1, 1, 2, 0], ["px", H - 5, 1, 1]]
+                k = (3, 1)
+            else:
+                ops = [["rect", 1, 2, 1, W // 7, 0], ["rect", 1, 2, W - 9, W - 1, 0], ["px", 1, W - 3, 1],
+                       ["bern", seed, 1, 5, 1, 2, W // 2, W - 12]]
+                k = (1, 3)
+            yield case("blurring", "side", {"H": H, "W": W, "ops": ops}, kh=k[0], kw=k[1], note="fits")
+        # one side > 2^15 through the index lists; > 2^15 unmasked pixels through the index lists
+        L = (1 << 15) + rng.randint(1, 40)
+        H, W = rng.choice([(L, 3), (3, L)])
+        ops = ([["stripes", 0, H, 0, 2, 16], ["rect", H - 5, H, 1, 3, 0]] if H > W else
+               [["rect", 0, 2, 0, W // 9, 0], ["rect", 1, 3, W - W // 11, W, 0], ["px", 1, W - 3, 1]])
+        yield case("util", "side", {"H": H, "W": W, "ops": ops}, note="ring_contact")
+        a = rng.randint(150, 170)
+        n = (1 << 15) + rng.randint(1, 300)
+        b = -(-n // a) + 3
+        yield case("util", "unmasked", {"H": a + 4, "W": b + 4, "ops": [["fill", n, 2, a + 2, 2, b + 2], ["px", a // 2, b // 2, 1]]},
+                   note="more_than_2^15_unmasked")
+        # every public view on a frame > 2^16 pixels with ring contact, holes, diagonal contacts (few unmasked pixels)
+        H, W = rng.randint(240, 255), rng.randint(275, 290)
+        ops = [["rect", H // 3, H // 3 + 12, W // 4, W // 4 + 30, 0], ["px", H // 3 + 5, W // 4 + 7, 1],
+               ["diag", H // 3 + 12, W // 4 + 30, 7, 1], ["rect", 0, 1, W // 2, W // 2 + 40, 0],
+               ["rect", H // 2, H // 2 + 25, W - 1, W, 0], ["px", H - 1, W - 1, 0], ["px", 0, 0, 0],
+               ["bern", seed, 1, 4, H - 20, H - 2, 5, 60]]
+        yield case("sets", "frame", {"H": H, "W": W, "ops": ops}, note="ring_contact_holes_diagonals")
+        # > 2^15 unmasked pixels through the derive objects (a subset of the views: each one re-runs the scans);
+        # the last rows are one-pixel stripes, so border / edge pixels carry slim indices beyond 2^15
+        n = (1 << 15) + rng.randint(1, 300)
+        a = rng.randint(170, 190)
+        b = -(-n // a) + 3
+        ops = [["fill", n, 2, a + 2, 2, b + 2], ["px", a // 2, b // 2, 1], ["stripes", a + 4, a + 9, 1, b // 3, 2],
+               ["px", a + 8, b + 3, 0]]
+        yield case("sets", "unmasked", {"H": a + 10, "W": b + 4, "ops": ops},
+                   keys=["edge_native", "border_native", rng.choice(["edge_mask", "border_mask", "edge_grid", "border_grid"])],
+                   note="more_than_2^15_unmasked")
+        if not quick:
+            n = (1 << 16) + rng.randint(1, 300)
+            a = rng.randint(240, 260)
+            b = -(-n // a) + 3
+            yield case("util", "unmasked", {"H": a + 4, "W": b + 4, "ops": [["fill", n, 2, a + 2, 2, b + 2]]},
+                       note="more_than_2^16_unmasked")
+            yield case("blurring", "unmasked", {"H": a + 4, "W": b + 6, "ops": [["fill", n, 2, a + 2, 3, b + 3]]},
+                       kh=3, kw=5, note="more_than_2^16_unmasked")
+            n = (1 << 15) + rng.randint(1, 300)
+            a = rng.randint(170, 190)
+            b = -(-n // a) + 3
+            yield case("sets", "unmasked", {"H": a + 4, "W": b + 4, "ops": [["fill", n, 2, a + 2, 2, b + 2], ["px", a // 2, b // 2, 1]]},
+                       note="more_than_2^15_unmasked")
+            L = (1 << 15) + rng.randint(1, 40)
+            yield case("sets", "side", {"H": 3, "W": L, "ops": [["rect", 0, 2, 0, 300, 0], ["rect", 1, 3, L - 200, L, 0], ["px", 1, L - 3, 1]]},
+                       note="ring_contact")
 
     # ------------------------------------------------------------------ constant-directed sizes (Round 4, L1)
     LARGE_BUDGET_S = 45.0      # estimated pure-Python cost of the whole stream
@@ -871,10 +1250,11 @@ class C10(PropertyCheck):
 
     # ------------------------------------------------------------------ history stream (Round 4, L2)
     HISTORY_TEMPLATES = ["edit", "edit", "twin", "fault", "repoint", "derive", "blurseq", "mixed"]
+    HISTORY_TEMPLATES_R5 = ["own", "own", "config"]     # Round 5: ownership (R5-B) and configuration (R5-D) histories
 
-    def history_cases(self, rng, rounds):
+    def history_cases(self, rng, rounds, templates=None):
         for _ in range(rounds):
-            for t in self.HISTORY_TEMPLATES:
+            for t in (templates or self.HISTORY_TEMPLATES):
                 yield self._gen_history(rng, t)
 
     def _gen_history(self, rng, template):
@@ -885,7 +1265,7 @@ class C10(PropertyCheck):
         elif r < 0.12:
             w = 1
         margin = 0
-        if template in ("blurseq", "fault", "twin") and rng.random() < 0.8:
+        if template in ("blurseq", "fault", "twin", "own", "config") and rng.random() < 0.8:
             # room for a kernel: otherwise only (1,1) fits and the blurring mask / grid is empty
             h, w = rng.randint(4, 8), rng.randint(4, 8)
             margin = 2 if (min(h, w) >= 6 and rng.random() < 0.3) else 1
@@ -902,9 +1282,9 @@ class C10(PropertyCheck):
         def sh():
             return sim.worlds[sim.cur]["sh"]
 
-        def read(via=None):
+        def read(via=None, **extra):
             add({"op": "read", "via": via or rng.choice(["fresh", "fresh", "held", "held", "util"]),
-                 "order": rng.sample(SET_KEYS, len(SET_KEYS)), "decoy": int(rng.random() < 0.35)})
+                 "order": rng.sample(SET_KEYS, len(SET_KEYS)), "decoy": int(rng.random() < 0.35), **extra})
 
         def touch():
             pool = SET_KEYS + DI_DECOYS + ["geometry", "pixels_in_mask"]
@@ -950,7 +1330,7 @@ class C10(PropertyCheck):
                 return 3, 3
             return (int(min(ys.min(), hh - 1 - ys.max())), int(min(xs.min(), ww - 1 - xs.max())))
 
-        def blur(mode="fit", via=None, kernel=None, kform=None, held=None, grid=None):
+        def blur(mode="fit", via=None, kernel=None, kform=None, held=None, grid=None, **extra):
             fy, fx = fit_half()
             if kernel is None:
                 if mode == "fit":
@@ -966,7 +1346,7 @@ class C10(PropertyCheck):
             add({"op": "blur", "via": via, "kh": kernel[0], "kw": kernel[1],
                  "grid": int(rng.random() < 0.6) if grid is None else int(grid),
                  "kform": kform or rng.choice(["tuple", "list", "np_int", "held_list"]),
-                 "held": int(rng.random() < 0.4) if held is None else int(held)})
+                 "held": int(rng.random() < 0.4) if held is None else int(held), **extra})
             return kernel
 
         def world(name, kind=None):
@@ -1128,6 +1508,65 @@ class C10(PropertyCheck):
                 read()
                 switch("X")
                 read()
+        elif template == "own":
+            # R5-B ownership history: observe -> scribble in place over every array the API returned or accepted ->
+            # observe the same object again -> rebuild the same world from fresh equal inputs -> observe; three
+            # rounds (a memo that hands out its own array may do so only from the 2nd / 3rd request on).  The mask,
+            # the geometry, the access path and the kernel are the SAME every round.
+            via = rng.choice(["fresh", "held", "util", "fresh"])
+            bv = "util" if via == "util" else rng.choice(["mask", "grid_first"])
+            fy, fx = fit_half()
+            k = (2 * rng.randint(0, min(fy, 2)) + 1, 2 * rng.randint(0, min(fx, 2)) + 1)
+            kf = rng.choice(["tuple", "list", "held_list", "np_int"])
+            order = rng.sample(SET_KEYS, len(SET_KEYS))
+            heldb = via == "held"
+
+            def seq():
+                first = rng.random() < 0.5
+                if first:
+                    add({"op": "read", "via": via, "order": order, "decoy": 0, "copyin": 1})
+                blur(kernel=k, via=bv, grid=True, kform=kf, held=heldb, copyin=1)
+                if not first:
+                    add({"op": "read", "via": via, "order": order, "decoy": 0, "copyin": 1})
+
+            for rnd in range(3):
+                seq()
+                add({"op": "scribble", "mode": rng.choice([0, 0, 1, 2])})
+                if rng.random() < 0.45:
+                    seq()           # the same object again: its answers must not be the arrays handed out before
+                    add({"op": "scribble", "mode": rng.choice([0, 1, 2])})
+                if rnd < 2:
+                    world("BC"[rnd], "same")
+            if rng.random() < 0.4:      # and an in-place edit at the end: the rebuilt object is an ordinary live mask
+                edit()
+                seq()
+        elif template == "config":
+            # R5-D configuration history: C10's code reads no configuration value, so flipping the values that the
+            # surrounding structures code does read, between calls on fresh and on reused objects, changes nothing
+            names = sorted(_Hist.CFG_KEYS)
+
+            def cfg(vals=None):
+                add({"op": "cfg", "vals": vals or {n: int(rng.random() < 0.5) for n in rng.sample(names, rng.randint(1, len(names)))}})
+
+            via = rng.choice(["fresh", "held", "util"])
+            read(via)
+            if rng.random() < 0.7:
+                blur("fit", grid=True)
+            cfg({n: 1 for n in names} if rng.random() < 0.5 else None)
+            read(via)
+            blur("fit", grid=True, via=rng.choice(["mask", "grid_first"]))
+            if rng.random() < 0.5:
+                edit()
+                read()
+            world("B", rng.choice(["same", "pixel_move", "content"]))
+            read(rng.choice(["fresh", "held"]))
+            cfg({n: 0 for n in names})
+            read()
+            if rng.random() < 0.5:
+                switch("A")
+                cfg()
+                read(via)
+                blur("any")
         elif template == "blurseq":
             k1 = blur("fit", kform="held_list" if rng.random() < 0.5 else None, grid=True)
             blur(kernel=(k1[1], k1[0]), grid=True)
@@ -1202,12 +1641,68 @@ class C10(PropertyCheck):
         large = bool(case.get("large"))
         bits_of, grid_of = (_bits_fast, _grid_f) if large else (_bits, _grid)
         if kind == "util":
-            if case.get("mask_form") == "int_nd":
-                m = m.astype(np.int64)
+            alt = self._layout(m, case.get("mask_form"))
+            if alt is not None:
+                m = alt
             es = mask_2d_util.edge_1d_indexes_from(mask_2d=m)
             bs = mask_2d_util.border_slim_indexes_from(mask_2d=m)
             return {"edge_slim": [int(v) for v in es], "border_slim": [int(v) for v in bs],
                     "total_edge": int(mask_2d_util.total_edge_pixels_from(mask_2d=m))}
+        mask = self._build_mask(aa, case, m)
+        if kind == "sets":
+            di, dm, dg = mask.derive_indexes, mask.derive_mask, mask.derive_grid
+            views = {
+                "edge_slim": lambda: [int(v) for v in di.edge_slim],
+                "border_slim": lambda: [int(v) for v in di.border_slim],
+                "edge_native": lambda: [[int(a), int(b)] for a, b in np.asarray(di.edge_native).reshape(-1, 2)],
+                "border_native": lambda: [[int(a), int(b)] for a, b in np.asarray(di.border_native).reshape(-1, 2)],
+                "edge_mask": lambda: bits_of(dm.edge),
+                "border_mask": lambda: bits_of(dm.border),
+                "edge_grid": lambda: grid_of(dg.edge),
+                "border_grid": lambda: grid_of(dg.border),
+            }
+            # large frames may observe a subset of the views ("keys"; the two slim lists always): every view
+            # re-runs the Python-speed scans
+            want = [k for k in SET_KEYS if k in case["keys"] or k in ("edge_slim", "border_slim")] if case.get("keys") else SET_KEYS
+            return {k: views[k]() for k in want}
+        kshape = self._kshape(case)
+        try:
+            bm = mask.derive_mask.blurring_from(kernel_shape_native=kshape)
+        except exc.MaskException as e:
+            return {"err": _err_kind(e)}
+        obs = {"blurring_mask": bits_of(bm),
+               "geometry_kept": [q(v) for v in (*bm.pixel_scales, *bm.origin)] == [*case.get("scales", ["1", "1"]), *case.get("origin", ["0", "0"])]}
+        if case.get("grid"):
+            obs["blurring_grid"] = grid_of(self._blurring_grid(aa, case, mask, kshape))
+        return obs
+
+    # -- how the (same) inputs reach the public API (Round 3 forms + Round 5 R5-C layouts / R5-F options)
+    @staticmethod
+    def _layout(m, form):
+        """an ndarray equal to the boolean array `m` in another memory layout / dtype (None: not an ndarray form)"""
+        h, w = m.shape
+        if form == "fortran":
+            return np.asfortranarray(m)
+        if form == "tview":                  # transposed view of a C-ordered array (has a base, F-contiguous)
+            return np.ascontiguousarray(m.T).T
+        if form == "strided":                # non-contiguous window of a larger array
+            big = np.ones((2 * h + 1, 3 * w + 2), dtype=bool)
+            v = big[1::2, 2::3][:h, :w]
+            v[...] = m
+            return v
+        if form == "negstride":              # negative strides on both axes
+            return np.ascontiguousarray(m[::-1, ::-1])[::-1, ::-1]
+        if form == "readonly":
+            c = m.copy()
+            c.setflags(write=False)
+            return c
+        if form in ("uint8", "int8", "int32", "float64", "float32"):
+            return m.astype(form)
+        if form == "int_nd":
+            return m.astype(np.int64)
+        return None
+
+    def _build_mask(self, aa, case, m):
         sc = tuple(float(Fraction(s)) for s in case.get("scales", ["1", "1"]))
         og = tuple(float(Fraction(s)) for s in case.get("origin", ["0", "0"]))
         sform = case.get("scales_form", "tuple")
@@ -1217,48 +1712,93 @@ class C10(PropertyCheck):
             sc_in = (int(sc[0]), int(sc[1]))   # a bare int scalar is outside the documented PixelScales type
         elif sform == "list":
             sc_in = [sc[0], sc[1]]
+        elif sform == "np64":
+            sc_in = (np.float64(sc[0]), np.float64(sc[1]))
+        elif sform == "f32" and not case.get("dec") and all(float(np.float32(v)) == v for v in (*sc, *og)) \
+                and all(v > 0 and np.frexp(v)[0] == 0.5 for v in sc):
+            # float32 scales: the centre arithmetic then runs in float32, exact for power-of-two scales and the
+            # few-bit origins of the ordinary streams (other geometry keeps the plain tuple)
+            sc_in = (np.float32(sc[0]), np.float32(sc[1]))
         else:
             sc_in = sc
         og_in = tuple(int(v) for v in og) if (sform == "int" and all(float(v).is_integer() for v in og)) else og
-        mform = case.get("mask_form", "bool_nd")
+        oform = case.get("origin_form")
         kw_mask = {}
+        if oform == "list":
+            og_in = [og[0], og[1]]
+        elif oform == "np64":
+            og_in = (np.float64(og[0]), np.float64(og[1]))
+        elif oform == "int" and all(float(v).is_integer() for v in og):
+            og_in = (int(og[0]), int(og[1]))
+        elif oform == "zero_explicit" and og == (0.0, 0.0):
+            og_in = (0.0, 0.0)
+        if not (oform == "omit" and og == (0.0, 0.0)):
+            kw_mask["origin"] = og_in
+        mform = case.get("mask_form", "bool_nd")
+        iform = case.get("invert_form")
+        if mform == "invert":                   # Round 3 name: boolean ndarray + invert=True
+            mform, iform = "bool_nd", "true"
+        if iform == "true" and mform not in self.BOOL_FORMS:
+            iform = None                        # np.invert of a 0/1 integer array is not a boolean complement
+        src = np.invert(m) if iform == "true" else m
+        if iform == "true":
+            kw_mask["invert"] = True
+        elif iform == "false":
+            kw_mask["invert"] = False
+        elif iform == "zero":
+            kw_mask["invert"] = 0
+        if mform == "all_false" and (not m.any() or m.all()) and iform != "true":
+            return aa.Mask2D.all_false(shape_native=tuple(int(v) for v in m.shape), pixel_scales=sc_in,
+                                       origin=og_in, invert=bool(m.all()))
         if mform == "bool_list":
-            m_in = [[bool(b) for b in r] for r in m]
+            m_in = [[bool(b) for b in r] for r in src]
         elif mform == "int_list":
-            m_in = [[int(b) for b in r] for r in m]
-        elif mform == "int_nd":
-            m_in = m.astype(np.int64)
-        elif mform == "invert":
-            m_in, kw_mask = np.invert(m), {"invert": True}
+            m_in = [[int(b) for b in r] for r in src]
+        elif mform == "np_bool_list":
+            m_in = [[np.bool_(b) for b in r] for r in src]
+        elif mform == "row_arrays":
+            m_in = [np.array(r, dtype=bool) for r in src]
+        elif mform == "from_mask2d":            # a structure built from another structure with OTHER geometry
+            m_in = aa.Mask2D(mask=src.copy(), pixel_scales=(7.0, 3.0), origin=(5.0, -2.0))
+        elif mform == "from_mask2d_same":
+            m_in = aa.Mask2D(mask=src.copy(), pixel_scales=sc, origin=og)
         else:
-            m_in = m
-        mask = aa.Mask2D(mask=m_in, pixel_scales=sc_in, origin=og_in, **kw_mask)
-        if kind == "sets":
-            di, dm, dg = mask.derive_indexes, mask.derive_mask, mask.derive_grid
-            return {
-                "edge_slim": [int(v) for v in di.edge_slim],
-                "border_slim": [int(v) for v in di.border_slim],
-                "edge_native": [[int(a), int(b)] for a, b in np.asarray(di.edge_native).reshape(-1, 2)],
-                "border_native": [[int(a), int(b)] for a, b in np.asarray(di.border_native).reshape(-1, 2)],
-                "edge_mask": bits_of(dm.edge),
-                "border_mask": bits_of(dm.border),
-                "edge_grid": grid_of(dg.edge),
-                "border_grid": grid_of(dg.border),
-            }
-        kshape = (case["kh"], case["kw"])
-        if case.get("kshape_form") == "list":
-            kshape = [case["kh"], case["kw"]]
-        elif case.get("kshape_form") == "np_int":
-            kshape = (np.int64(case["kh"]), np.int64(case["kw"]))
-        try:
-            bm = mask.derive_mask.blurring_from(kernel_shape_native=kshape)
-        except exc.MaskException as e:
-            return {"err": _err_kind(e)}
-        obs = {"blurring_mask": bits_of(bm),
-               "geometry_kept": [q(v) for v in (*bm.pixel_scales, *bm.origin)] == [*case.get("scales", ["1", "1"]), *case.get("origin", ["0", "0"])]}
-        if case.get("grid"):
-            obs["blurring_grid"] = grid_of(aa.Grid2D.blurring_grid_from(mask=mask, kernel_shape_native=kshape))
-        return obs
+            m_in = self._layout(src, mform)
+            if m_in is None:
+                m_in = src
+        return aa.Mask2D(mask=m_in, pixel_scales=sc_in, **kw_mask)
+
+    @staticmethod
+    def _kshape(case):
+        kh, kw = case["kh"], case["kw"]
+        f = case.get("kshape_form")
+        if f == "list":
+            return [kh, kw]
+        if f == "np_int":
+            return (np.int64(kh), np.int64(kw))
+        if f == "np_i32":
+            return (np.int32(kh), np.int32(kw))
+        if f == "np_i8" and kh < 128 and kw < 128:
+            return (np.int8(kh), np.int8(kw))
+        if f == "np_arr":
+            return np.array([kh, kw])
+        if f == "np_arr_i16":
+            return np.array([kh, kw], dtype=np.int16)
+        return (kh, kw)
+
+    @staticmethod
+    def _blurring_grid(aa, case, mask, kshape):
+        via = case.get("grid_via")
+        if via == "positional":
+            return aa.Grid2D.blurring_grid_from(mask, kshape)
+        if via in ("os_none", "os_1", "os_2"):
+            from autoarray.operators.over_sampling.uniform import OverSamplingUniform
+
+            os_ = None if via == "os_none" else OverSamplingUniform(sub_size=1 if via == "os_1" else 2)
+            return aa.Grid2D.blurring_grid_from(mask=mask, kernel_shape_native=kshape, over_sampling=os_)
+        if via == "via_grid":           # the instance-method entry point of a grid paired with the mask
+            return aa.Grid2D.from_mask(mask=mask).blurring_grid_via_kernel_shape_from(kernel_shape_native=kshape)
+        return aa.Grid2D.blurring_grid_from(mask=mask, kernel_shape_native=kshape)
 
     # ------------------------------------------------------------------ model
     MODEL_MAX_PIXELS = 1200   # the List-based Lean model is quadratic in the frame: larger frames are judged by
@@ -1356,14 +1896,32 @@ class C10(PropertyCheck):
         return (oy + (Fraction(h - 1, 2) - p[0]) * sy, ox + (p[1] - Fraction(w - 1, 2)) * sx)
 
     @staticmethod
-    def _grid_close(got, exp):
+    def _grid_close(got, exp, tol=None):
         if len(got) != len(exp):
             return False
         for g, e in zip(got, exp):
-            for a, b in zip(g, e):
-                if abs(Fraction(a) - b) > Fraction(1, 10 ** 9) * max(1, abs(b)):
+            for ax, (a, b) in enumerate(zip(g, e)):
+                t = Fraction(1, 10 ** 9) * max(1, abs(b)) if tol is None else tol[ax]
+                try:
+                    d = abs(Fraction(a) - b)
+                except (ValueError, ZeroDivisionError):      # "nan" / "inf"
+                    return False
+                if d > t:
                     return False
         return True
+
+    @staticmethod
+    def _tol(case, h, w):
+        """decades stream: per-axis tolerance RELATIVE TO THE SCALED MAGNITUDE of the case - a billionth of a
+        pixel plus the float64 rounding of the centre arithmetic ((n-1)/2 + o/s, y - c, * s: a few ulps of
+        |o| + n|s|; 2^-48 leaves a factor 8) - instead of the absolute 1e-9 of the ordinary streams."""
+        if not case.get("dec"):
+            return None
+        out = []
+        for ax, n in ((0, h), (1, w)):
+            s_, o_ = abs(Fraction(case["scales"][ax])), abs(Fraction(case["origin"][ax]))
+            out.append(Fraction(1, 10 ** 9) * s_ + Fraction(1, 1 << 48) * (o_ + n * s_))
+        return out
 
     # Work-around for the runner being quadratic in the number of failing cases (it recomputes a set of
     # case keys per disagreement): once FAIL_CAP generated cases have failed in a run, further failures
@@ -1385,14 +1943,43 @@ class C10(PropertyCheck):
         if case["kind"] == "history":
             impl_obs = {"steps": [{k: v for k, v in e.items() if k != "msg"} if isinstance(e, dict) else e
                                   for e in impl_obs.get("steps", [])]} if isinstance(impl_obs, dict) and "steps" in impl_obs else impl_obs
+        d = None
+        if case.get("dec") and isinstance(impl_obs, dict) and isinstance(model_obs, dict):
+            # decades stream: the coordinate grids are compared with a tolerance relative to the scaled magnitude
+            # of the case (`_tol`), everything else exactly as usual
+            tol = self._tol(case, case["mask"]["h"], case["mask"]["w"])
+            gk = [k for k in impl_obs if k.endswith("_grid") and k in model_obs]
+            for k in gk:
+                d = d or self._grid_diff(impl_obs[k], model_obs[k], tol, k, cmp)
+            impl_obs = {k: v for k, v in impl_obs.items() if k not in gk}
+            model_obs = {k: v for k, v in model_obs.items() if k not in gk}
         # bit strings must be compared as strings: `Cmp` parses all-digit strings as rationals, and formatting the
         # difference of two 300+-digit "numbers" overflows float()
-        d = cmp.diff(self._bitsafe(impl_obs), self._bitsafe(model_obs))
+        d = d or cmp.diff(self._bitsafe(impl_obs), self._bitsafe(model_obs))
         if d and "corpus_file" not in case:
             if self._disagreements >= self.FAIL_CAP:
                 return None
             self._disagreements += 1
         return d
+
+    @staticmethod
+    def _grid_diff(got, exp, tol, name, cmp):
+        if not isinstance(got, list) or not isinstance(exp, list) or len(got) != len(exp):
+            return f"$.{name}: length impl={len(got) if isinstance(got, list) else got!r} model={len(exp) if isinstance(exp, list) else exp!r}"
+        for i, (g, e) in enumerate(zip(got, exp)):
+            for ax in (0, 1):
+                try:
+                    a, b = Fraction(g[ax]), Fraction(e[ax])
+                except Exception:
+                    return f"$.{name}[{i}][{ax}]: impl={g[ax]!r} model={e[ax]!r}"
+                if a == b:
+                    cmp.exact += 1
+                elif abs(a - b) <= tol[ax]:
+                    cmp.tolerant += 1
+                else:
+                    return (f"$.{name}[{i}][{ax}]: impl={float(a)!r} model={float(b)!r} (|Δ|={float(abs(a - b)):.3e}, "
+                            f"tolerance {float(tol[ax]):.3e} relative to the scaled magnitude)")
+        return None
 
     @classmethod
     def _bitsafe(cls, o):
@@ -1545,15 +2132,16 @@ class C10(PropertyCheck):
             return False, "total_edge_pixels_from disagrees with the number of edge indices"
         if kind == "sets":
             for name, S in (("edge", Eflat), ("border", Bflat)):
-                nat = np.asarray(obs[f"{name}_native"], dtype=np.int64).reshape(-1, 2)
-                expn = np.stack(np.divmod(S, w), axis=1).reshape(-1, 2)
-                if not np.array_equal(nat, expn):
-                    return False, f"{name}_native does not denote the pixels of {name}_slim"
+                if f"{name}_native" in obs:
+                    nat = np.asarray(obs[f"{name}_native"], dtype=np.int64).reshape(-1, 2)
+                    expn = np.stack(np.divmod(S, w), axis=1).reshape(-1, 2)
+                    if not np.array_equal(nat, expn):
+                        return False, f"{name}_native does not denote the pixels of {name}_slim"
                 expm = np.ones(h * w, dtype=bool)
                 expm[S] = False
-                if not bits_ok(obs[f"{name}_mask"], expm.reshape(h, w)):
+                if f"{name}_mask" in obs and not bits_ok(obs[f"{name}_mask"], expm.reshape(h, w)):
                     return False, f"{name} mask is not unmasked exactly on the {name} pixels"
-                if not grid_ok(obs[f"{name}_grid"], S):
+                if f"{name}_grid" in obs and not grid_ok(obs[f"{name}_grid"], S):
                     return False, f"{name} grid is not the pixel centres of the {name} pixels in slim order"
         return True, ""
 
@@ -1589,7 +2177,7 @@ class C10(PropertyCheck):
             if "blurring_grid" in obs:
                 pix = [(y, x) for y in range(h) for x in range(w) if not exp[y, x]]
                 expg = [self._centre(h, w, case["scales"], case["origin"], p) for p in pix]
-                if not self._grid_close(obs["blurring_grid"], expg):
+                if not self._grid_close(obs["blurring_grid"], expg, self._tol(case, h, w)):
                     return False, "blurring grid is not the pixel centres of the blurring mask in row-major order"
             return True, ""
         if isinstance(obs, dict) and "err" in obs:
@@ -1638,7 +2226,7 @@ class C10(PropertyCheck):
                 if obs[f"{name}_mask"] != _bits(expm):
                     return False, f"{name} mask is not unmasked exactly on the {name} pixels"
                 expg = [self._centre(h, w, case["scales"], case["origin"], p) for p in S]
-                if not self._grid_close(obs[f"{name}_grid"], expg):
+                if not self._grid_close(obs[f"{name}_grid"], expg, self._tol(case, h, w)):
                     return False, f"{name} grid is not the pixel centres of the {name} pixels in slim order"
                 if f"{name}_grid_mask" in obs and obs[f"{name}_grid_mask"] != _bits(expm):
                     return False, f"the mask of the {name} grid is not unmasked exactly on the {name} pixels"
@@ -1762,6 +2350,10 @@ class C10(PropertyCheck):
                 yield {**case, "mask": {**mj, "bits": bits[:i] + "1" + bits[i + 1:]}}
         if case.get("scales") not in (None, ["1", "1"]) or case.get("origin") not in (None, ["0", "0"]):
             yield {**case, "scales": ["1", "1"], "origin": ["0", "0"]}
+        # Round 5: one input form / option back to its default at a time
+        for k in ("mask_form", "scales_form", "origin_form", "invert_form", "kshape_form", "grid_via"):
+            if case.get(k) not in (None, "bool_nd", "tuple"):
+                yield {kk: v for kk, v in case.items() if kk != k}
 
     def theorems_for(self, case):
         if case["kind"] == "history":
